@@ -269,7 +269,7 @@ def translate(cfg, outdir):
         while True:
             todo = [(cn, d) for cn, d in em.callees.items()
                     if cn not in em.unit_names and cn not in tried and "__" in cn and "::" in d and
-                    not cn.startswith("vf_") and not cn.endswith("__new") and "__ctor" not in cn and
+                    not cn.startswith("vf_") and not cn.endswith("__new") and "__ctor" not in cn and "__make" not in cn and
                     cn not in cfg.get("no_auto", [])]
             if not todo:
                 break
@@ -448,6 +448,12 @@ def translate(cfg, outdir):
                         "  __CPROVER_assume(p != 0);\n  %s(%s);\n  return p;\n}\n" %
                         (tag, cn, ps or "void", tag, tag, tag, ctor,
                          ", ".join(["p"] + ["a%d" % i for i in range(len(params))])))
+            em.unit_names.add(cn)
+    for cn, (tag, ctor, params) in sorted(em.makes.items()):
+        if ctor in em.unit_names:
+            ps = ", ".join("%s a%d" % (p, i) for i, p in enumerate(params))
+            news.append("struct %s %s(%s)\n{\n  struct %s r;\n  %s(%s);\n  return r;\n}\n" %
+                        (tag, cn, ps or "void", tag, ctor, ", ".join(["&r"] + ["a%d" % i for i in range(len(params))])))
             em.unit_names.add(cn)
     h.append("/* ---- prototypes (units and callees) ---- */")
     for cn, (ret, params, variadic, src) in sorted(em.protos.items()):
